@@ -268,3 +268,62 @@ Proof.
       split; [unfold HD; apply Z.div_pos; lia|]. intros _. repeat constructor. lia.
     + set (r := process_attack _ _ _ _ _ _). vm_compute in r. subst r. exact I.
 Qed.
+
+(* ---- binary64 layer (Grid/HealthFloat.v, Proofs/HealthFloat_proofs.v): "each hit lowers the victim's
+   health by exactly the attack strength (clamped at zero), agents reaching zero health die and leave the
+   grid" for health and strength that are ANY doubles, on the standard library's executable
+   specification of IEEE-754 binary64 (Floats.SpecFloat): the subtraction rounds as CPython's does, so
+   0.9 - 0.3 - 0.3 - 0.3 leaves 2^-53 and the victim alive.  The integer theorems above are the
+   special case of multiples of 2^-20, where the subtraction is exact. ---- *)
+From Coq Require Import SpecFloat.
+From Abm Require Grid.HealthFloat Proofs.HealthFloat_proofs.
+
+(* whatever double is assigned (infinities, NaN): the stored health is never below 0 nor above 1 *)
+Theorem C11_float_health_in_unit : forall v,
+    SFltb (HealthFloat.set_health v) HealthFloat.f_zero = false /\
+    SFltb HealthFloat.f_one (HealthFloat.set_health v) = false.
+Proof. exact HealthFloat_proofs.set_health_unit. Qed.
+Print Assumptions C11_float_health_in_unit.
+
+Theorem C11_float_zero_never_active : forall s, HealthFloat.is_active (S754_zero s) = false.
+Proof. exact HealthFloat_proofs.zero_not_active. Qed.
+Print Assumptions C11_float_zero_never_active.
+
+(* active = (health > 0) leaves no third case: a stored health that is a number and not active is zero *)
+Theorem C11_float_inactive_is_zero : forall v h, h = HealthFloat.set_health v -> h <> S754_nan ->
+    HealthFloat.is_active h = false -> exists s, h = S754_zero s.
+Proof. exact HealthFloat_proofs.inactive_is_zero. Qed.
+Print Assumptions C11_float_inactive_is_zero.
+
+(* any number of attacks on a victim, any health, any strength: in every record the victim is stored
+   in its cell exactly when it is active, and active only with positive health *)
+Theorem C11_float_hits_records : forall n h s alive,
+    Forall (fun r => let '(h', a, g) := r in g = a /\ (a = true -> HealthFloat.is_active h' = true))
+           (HealthFloat.hits h s alive n).
+Proof. exact HealthFloat_proofs.hits_records. Qed.
+Print Assumptions C11_float_hits_records.
+
+Theorem chk_C11_float_model : forall n h s alive,
+    HealthFloat.chk_sem h s alive (HealthFloat.hits h s alive n) = 0.
+Proof. exact HealthFloat_proofs.chk_sem_model. Qed.
+Print Assumptions chk_C11_float_model.
+
+(* what the checker demands of an observed hit on a living victim *)
+Theorem C11_float_chk_sound : forall h s h' a g r,
+    HealthFloat.chk_sem h s true ((h', a, g) :: r) = 0 ->
+    HealthFloat.sf_eqb h' (HealthFloat.hit h s) = true /\ a = HealthFloat.is_active h' /\ g = a.
+Proof. exact HealthFloat_proofs.chk_sem_sound_head. Qed.
+Print Assumptions C11_float_chk_sound.
+
+(* 0.9 hit with 0.3: 0.6000000000000001, 0.30000000000000004, 2^-53 (alive!), then dead; the wire
+   checker accepts the model's answer and rejects the answer with the third health snapped to 0 *)
+Example C11_float_nonvacuous :
+  let inp := L [A 8106479329266893; A (-53); A 5404319552844595; A (-54); A 5] in
+  HealthFloat.run_health_float inp =
+    L [L [L [A 1351079888211149; A (-51)]; A 1; A 1]; L [L [A 5404319552844597; A (-54)]; A 1; A 1];
+       L [L [A 1; A (-53)]; A 1; A 1]; L [L [A 0; A 0]; A 0; A 0]; L [L [A 0; A 0]; A 0; A 0]] /\
+  HealthFloat.run_chk_health_float (L [inp; HealthFloat.run_health_float inp]) = A 1 /\
+  HealthFloat.run_chk_health_float
+    (L [inp; L [L [L [A 1351079888211149; A (-51)]; A 1; A 1]; L [L [A 5404319552844597; A (-54)]; A 1; A 1];
+                L [L [A 0; A 0]; A 0; A 0]; L [L [A 0; A 0]; A 0; A 0]; L [L [A 0; A 0]; A 0; A 0]]]) = A (-1101).
+Proof. cbv zeta. repeat split; vm_compute; reflexivity. Qed.
